@@ -1015,3 +1015,29 @@ theorem no_lin_after_ret (n : Str) (os : List (Tid × Call × List AOp)) (t : Ti
   · cases hw
 
 end Ldlm.Threads
+
+namespace Ldlm.Threads
+open Ldlm Ldlm.Table
+/-- a well-formed trace stays well formed from any point on (with the calls open at that point) -/
+theorem wf_suffix (n : Str) : ∀ (p q : List Ev) (os : List (Tid × Call × List AOp)),
+    wf n os (p ++ q) = true → ∃ os', wf n os' q = true := by
+  intro p
+  induction p with
+  | nil => intro q os h; exact ⟨os, h⟩
+  | cons e p ih =>
+    intro q os h
+    cases e with
+    | inv t c =>
+      simp only [List.cons_append, wf, Bool.and_eq_true] at h
+      exact ih q _ h.2
+    | lin t op =>
+      simp only [List.cons_append, wf] at h
+      split at h
+      · exact ih q _ h
+      · cases h
+    | ret t ok =>
+      simp only [List.cons_append, wf] at h
+      split at h
+      · simp only [Bool.and_eq_true] at h; exact ih q _ h.2
+      · cases h
+end Ldlm.Threads
